@@ -222,6 +222,15 @@ Definition op_sort_by_key (key : val -> val) : op := OStateless (fun i => [isort
 Definition op_chain_first_n (n : nat) : op := OStateless (fun i => [firstn n (port 0 i ++ port 1 i)]).
 Definition op_null : op := OStateless (fun _ => [[]]).
 
+(* zip_longest: EitherOrBoth encoded as Left a = (0, a), Right b = (1, b), Both a b = (2, (a, b)) *)
+Fixpoint vzip_longest (l r : list val) : list val :=
+  match l, r with
+  | [], _ => map (fun b => VP (VN 1) b) r
+  | _, [] => map (fun a => VP (VN 0) a) l
+  | a :: l', b :: r' => VP (VN 2) (VP a b) :: vzip_longest l' r'
+  end.
+Definition op_zip_longest : op := OStateless (fun i => [vzip_longest (port 0 i) (port 1 i)]).
+
 (* one-port accumulating operators *)
 Definition acc1 (p : pers) (init : list val) (ins : list val -> val -> list val)
            (out : list val -> list val -> list val -> list val) : accop :=
@@ -250,6 +259,27 @@ Definition reduce_keyed_ins (f : val -> val -> val) (t : list val) (kv : val) : 
   tbl_update (vfst kv) (fun o => match o with Some a => f a (vsnd kv) | None => vsnd kv end) t.
 Definition op_reduce_keyed (p : pers) (f : val -> val -> val) : op :=
   OAcc (acc1 p [] (reduce_keyed_ins f) (fun new _ _ => new)).
+
+(* scan: state [acc] while running, [] once the closure returned None (the operator then stays
+   silent until a 'tick reset); the closure maps (acc, item) to Some (acc', output) or None *)
+Definition scan_ins (f : val -> val -> option (val * val)) (s : list val) (x : val) : list val :=
+  match s with
+  | a :: _ => match f a x with Some (a', _) => [a'] | None => [] end
+  | [] => []
+  end.
+Fixpoint scan_out (f : val -> val -> option (val * val)) (s : list val) (l : list val) : list val :=
+  match l with
+  | [] => []
+  | x :: r => match s with
+              | a :: _ => match f a x with
+                          | Some (a', o) => o :: scan_out f [a'] r
+                          | None => []
+                          end
+              | [] => []
+              end
+  end.
+Definition op_scan (p : pers) (init : val) (f : val -> val -> option (val * val)) : op :=
+  OAcc (acc1 p [init] (scan_ins f) (fun _ old i => scan_out f old i)).
 
 (* unique: emits the items that were new to the set, in arrival order *)
 Definition op_unique (p : pers) : op :=
@@ -318,6 +348,8 @@ Definition p_lt3 (v : val) : bool := vnum v <? 3.
 Definition p_keyeven (v : val) : bool := N.even (vnum (vfst v)).
 Definition fm_half (v : val) : option val := if N.even (vnum v) then Some (VN (vnum v / 2)) else None.
 Definition fm_dec (v : val) : option val := if vnum v =? 0 then None else Some (VN (vnum v - 1)).
+Definition sc_sum (a x : val) : option (val * val) :=
+  let n := vnum a + vnum x in if 20 <? n then None else Some (VN n, VN n).
 Definition g_rep (v : val) : list val := repeat v (N.to_nat (vnum v mod 3)).
 Definition g_upto (v : val) : list val := map (fun i => VN (N.of_nat i)) (seq 0 (N.to_nat (vnum v mod 4))).
 Definition a_sum (a x : val) : val := VN (vnum a + vnum x).
